@@ -1,7 +1,7 @@
 PROP = dict(
     coq=["Reactor/ReactorHarness.vo"],
     legs=[
-        dict(driver="reactor", binary="zreactor", quick=1500, thorough=15000, shard=150,
+        dict(driver="reactor", binary="zreactor", quick=1300, thorough=15000, shard=150,
              monitors=["accounting (tokens <= cap, tracked <= tokens, equal when no call is in progress)",
                        "ledger (tracked seeds = accepted - finished)",
                        "rejected call changes nothing",
@@ -9,7 +9,7 @@ PROP = dict(
                        "delivery in send order",
                        "feedback never blocks (well-formed client)",
                        "answers depend on the seed id only (finish nil iff tracked, feedback 'not present' iff untracked)"]),
-        dict(driver="reactorc", binary="zreactor", quick=2000, thorough=24000, shard=100,
+        dict(driver="reactorc", binary="zreactor", quick=1500, thorough=24000, shard=100,
              monitors=["no deadlock (run became quiescent)",
                        "bounded in-flight seeds at every moment of the history",
                        "quiescent accounting (tokens = tracked = accepted - finished)",
@@ -20,6 +20,10 @@ PROP = dict(
              monitors=["input channel has room for every token holder (cap(input) >= token count)",
                        "cap(tokenPool) = token count",
                        "filled reactor: all n inserts return with the output not drained, feedback of a received seed returns nil"]),
+        dict(driver="reactorpipe", quick=1, thorough=40, shard=50, noshrink=True,
+             monitors=["the pipeline gives the reactor exactly --workers tokens",
+                       "at most --workers seeds tracked at every sample of a real crawl",
+                       "the crawl completed"]),
     ],
     partial="Linearizability of the fine-grained transition system with respect to its own call-granularity runs is checked on "
             "recorded concurrent histories (Wing-Gong search evaluated in Coq), not proved. The Go memory model is not modelled: "
